@@ -333,14 +333,20 @@ def leaves(r):
     return [np.asarray(a) for a in jax.tree_util.tree_leaves(r)]
 
 
-def call_impl(p, meth, x, tp, multi, normalize, diag, jit):
-    """p.meth(x, <time>, flags, multi_time=…) exactly as a user writes it."""
+def call_impl(p, meth, x, tp, multi, normalize, diag, jit, flags_pos=False):
+    """p.meth(x, <time>, flags, multi_time=…) exactly as a user writes it.  flags_pos: the option that follows `time` in the
+    signature (normalize / diag / jit) is passed positionally after a positional time (possibly None)."""
     fn = getattr(p, meth)
     args, kw = [x_obj(x)], {}
     if tp["mode"] == "pos":
         args.append(time_obj(tp["time"]))
     elif tp["mode"] == "kw":
         kw["time"] = time_obj(tp["time"])
+    if flags_pos and tp["mode"] == "pos":
+        args.append((1 if normalize == "X" else bool(normalize)) if meth == "mean" else (bool(diag) if meth in COVM else bool(jit)))
+        if multi is not None:
+            kw["multi_time"] = multi_obj(multi)
+        return fn(*args, **kw)
     if meth == "mean":
         if normalize is not False:
             kw["normalize"] = 1 if normalize == "X" else bool(normalize)
@@ -396,7 +402,7 @@ def case_pred(ctx, res, p):
     pkey = (cls, pseed, f, nobs_ok)
     t = tp["time"] if tp["mode"] != "absent" else tdesc("none", [], [])
     try:
-        out = ("ok", leaves(call_impl(P, meth, x, tp, multi, normalize, diag, jit)))
+        out = ("ok", leaves(call_impl(P, meth, x, tp, multi, normalize, diag, jit, bool(p.get("flags_pos")))))
     except Exception as e:
         out = ("err", err_kind(e), str(e)[:160])
     if (out[0] == "ok" and multi is None and t["kind"] == "none" and x["kind"] == "arr" and normalize in (False, True)
@@ -411,6 +417,8 @@ def case_pred(ctx, res, p):
     res.count("pred cls=" + cls)
     res.count("pred meth=" + meth)
     res.count("pred form=%s/%s" % (tp["mode"], t["kind"]))
+    if p.get("flags_pos"):
+        res.count("pred flags=positional" + ("+multi_time" if multi is not None else ""))
     res.count("pred multi=" + ("none" if multi is None else multi["kind"] + "/rank%d" % len(multi["shape"])))
     res.count("pred outcome=" + (out[0] if out[0] == "ok" else out[1]))
     xa = np.asarray(x["data"], float) if x["kind"] in ("arr", "list") else None
@@ -659,6 +667,11 @@ def gen_pred(ctx, res, quick, t_end):
         mk_kind = ["list", "np"][int(rng.integers(2))]
         run_case(ctx, res, mk(cls, meth, xdesc(X), {"mode": "absent", "time": none_t},
                               multi={"kind": mk_kind, "shape": [k], "data": np.asarray(ts)}, **flags(meth)))
+        # the option after `time` passed positionally: after a positional None with multi_time, and after a positional time
+        fl = {"normalize": True} if meth == "mean" else ({"diag": False} if meth in COVM else {"jit": bool(rng.integers(2))})
+        run_case(ctx, res, dict(mk(cls, meth, xdesc(X), {"mode": "pos", "time": none_t},
+                                   multi={"kind": mk_kind, "shape": [k], "data": np.asarray(ts)}, **fl), flags_pos=True))
+        run_case(ctx, res, dict(mk(cls, meth, xdesc(X), {"mode": "pos", "time": forms[0][1]}, **fl), flags_pos=True))
         # refusals: both (positional and keyword), wrong length, wrong features
         tt = forms[int(rng.integers(len(forms)))][1]
         run_case(ctx, res, mk(cls, meth, xdesc(X), {"mode": "pos", "time": tt},
